@@ -104,6 +104,9 @@ func (m *SynchronizedMemory) References() int {
 }
 
 func (m *SynchronizedMemory) MappedData() unsafe.Pointer {
+	m.mapMutex.Lock()
+	defer m.mapMutex.Unlock()
+
 	return m.mapData
 }
 
